@@ -3,7 +3,8 @@ import CattrsModel.GenInterp.Model
 /-!
 # Line-protocol operations of C06 (driver only): the theorems' hypotheses evaluated on a concrete case
 -/
-namespace CattrsModel
+namespace CattrsModel.GenInterp
+open CattrsModel
 open Sexp
 
 def genInterpHandle (w : World) (op : String) (args : List Sexp) : Option Sexp :=
@@ -21,8 +22,8 @@ def genInterpHandle (w : World) (op : String) (args : List Sexp) : Option Sexp :
       let cfg ← cfgOfSexp cfg; let ty ← tyOfSexp ty; let x ← objOfSexp x
       some (.list [ofBool (ty.supU false && w.supUB false),
                    ofBool (wellTyped w ty x),
-                   ofBool x.scalarKeys,
-                   ofBool (cfg.tupleStrat || w.allInitB),
+                   ofBool (scalarKeys x),
+                   ofBool (cfg.tupleStrat || (allInitB w)),
                    ofBool (decide (normSeq (convUnstructure w { cfg with gen := false } ty x)
                                     = normSeq (convUnstructure w { cfg with gen := true } ty x)))])
   | "NORMSEQ", [x] => do
@@ -30,4 +31,4 @@ def genInterpHandle (w : World) (op : String) (args : List Sexp) : Option Sexp :
       some (replyObj (normSeq x))
   | _, _ => Option.none
 
-end CattrsModel
+end CattrsModel.GenInterp
